@@ -10,8 +10,8 @@
 use core::cmp::Ordering;
 
 use fpdec_core::{
-    checked_mul_pow_ten, i128_div_rounded, i128_shifted_div_rounded, ten_pow,
-    MAX_N_FRAC_DIGITS,
+    checked_mul_pow_ten, i128_div_mod_floor, i128_div_rounded,
+    i128_shifted_div_rounded, ten_pow, MAX_N_FRAC_DIGITS,
 };
 
 use crate::{Decimal, DecimalError};
@@ -91,11 +91,19 @@ pub(crate) fn checked_div_rounded(
             shift = divident_n_frac_digits - shift;
             // shift < divident_n_frac_digits => shift < 18 => ten_pow(shift)
             // is safe
-            Some(i128_div_rounded(
-                divident_coeff / divisor_coeff,
-                ten_pow(shift),
-                None,
-            ))
+            let (mut quot, rem) =
+                i128_div_mod_floor(divident_coeff, divisor_coeff);
+            let mut divisor = ten_pow(shift);
+            if rem != 0 {
+                // The exact quotient lies strictly between quot and
+                // quot + 1. In order to round only once, double quotient
+                // and divisor and let the lowest bit of the doubled
+                // quotient stand for the non-zero remainder.
+                // rem != 0 => |divisor_coeff| >= 2 => |quot| <= 2^126
+                quot = 2 * quot + 1;
+                divisor *= 2;
+            }
+            Some(i128_div_rounded(quot, divisor, None))
         }
     }
 }
